@@ -1913,16 +1913,6 @@ proof_ref!(c05_referral_out_both, 7, {
     let _ = n;
 });
 
-// @harness name=c05_any_referral props=C05,C04 panics=C05,C01 tier=thorough mem=2 t=1800 kani="--no-assertion-reach-checks" cbmc="--max-field-sensitivity-array-size 256 --unwindset _RNCNvMs_NtNtCskjFBwtpsoHr_8quandary7message6writerNtB6_6Writer30write_compressed_unhinted_name0Ba_.0:4,_RNCNvMs_NtNtCskjFBwtpsoHr_8quandary7message6writerNtB6_6Writer30write_compressed_unhinted_names_0Ba_.0:4,_RNvMs_NtNtCskjFBwtpsoHr_8quandary7message6writerNtB4_6Writer30write_compressed_unhinted_name.0:4,_RNvMs_NtNtCskjFBwtpsoHr_8quandary7message6writerNtB4_6Writer30write_compressed_unhinted_name.1:4,_RINvNvMNtNtCs8xvirJzNMvV_4core5slice5asciiSh27eq_ignore_ascii_case_chunks21eq_ignore_ascii_innerKj10_ECskjFBwtpsoHr_8quandary.0:3,_RNvMNtNtCs8xvirJzNMvV_4core5slice5asciiSh27eq_ignore_ascii_case_simpleCskjFBwtpsoHr_8quandary.0:3,_RINvMNtNtCs8xvirJzNMvV_4core5slice5asciiSh27eq_ignore_ascii_case_chunksKj10_ECskjFBwtpsoHr_8quandary.0:3,_RNvNtNtCskjFBwtpsoHr_8quandary4name4wire23parse_uncompressed_name.0:5,_RNvMs_NtCskjFBwtpsoHr_8quandary4nameNtB4_4Name15initialize_into.0:5,_RINvNtCs8xvirJzNMvV_4core3ptr9drop_glueSTjINtNtCs6xMQmN1AWUs_5alloc5boxed3BoxNtNtCskjFBwtpsoHr_8quandary4name4NameEEEB1h_.0:3,_RINvNtNtCskjFBwtpsoHr_8quandary6server5query11do_referralNtNtB2_10kani_query8MockZoneEB6_.0:2,_RINvNtNtCskjFBwtpsoHr_8quandary6server5query11do_referralNtNtB2_10kani_query8MockZoneEB6_.1:2,_RINvNtNtCskjFBwtpsoHr_8quandary6server5query11do_referralNtNtB2_10kani_query8MockZoneEB6_.2:2" stubs="M1,T0,N1"
-//   fn="Server::handle_non_axfr_query,answer_any,do_referral,add_additional_addresses,execute_allowing_truncation,read_name_from_rdata,Name::eq_or_subdomain_of,Writer::add_authority_rrset,Writer::add_additional_rrset"
-//   bound="UDP, limit 64; question a. * IN; Referral(cut a., NS b.a. (in bailiwick: glue, visible only below the cut, mandatory)); the name server has an A: 51 octets, complete; unwind 7"
-//   sym="NS TTL, TTLs and octets of the address records"
-proof_ref!(c05_any_referral, 7, {
-    let (case, n) = referral(true, true, true, 64, true, false);
-    kani::cover!(case == COMPLETE && n == 51, "ANY referral with glue A");
-    let _ = n;
-});
-
 /// Two name servers: a. itself (in bailiwick: glue A mandatory) and c.
 /// (parent zone: optional).  With both A records the response would be 80
 /// octets: the glue must stay, the other address may go.
@@ -2261,40 +2251,13 @@ fn trunc_neg(udp: bool, limit: usize) {
     );
 }
 
-// @harness name=c04_neg_udp_a props=C04,C05 panics=C04,C01 tier=thorough mem=4 t=2400 kani="--no-assertion-reach-checks" cbmc="--max-field-sensitivity-array-size 256 --unwindset _RNCNvMs_NtNtCskjFBwtpsoHr_8quandary7message6writerNtB6_6Writer30write_compressed_unhinted_name0Ba_.0:4,_RNCNvMs_NtNtCskjFBwtpsoHr_8quandary7message6writerNtB6_6Writer30write_compressed_unhinted_names_0Ba_.0:4,_RNvMs_NtNtCskjFBwtpsoHr_8quandary7message6writerNtB4_6Writer30write_compressed_unhinted_name.0:4,_RNvMs_NtNtCskjFBwtpsoHr_8quandary7message6writerNtB4_6Writer30write_compressed_unhinted_name.1:4,_RINvNvMNtNtCs8xvirJzNMvV_4core5slice5asciiSh27eq_ignore_ascii_case_chunks21eq_ignore_ascii_innerKj10_ECskjFBwtpsoHr_8quandary.0:3,_RNvMNtNtCs8xvirJzNMvV_4core5slice5asciiSh27eq_ignore_ascii_case_simpleCskjFBwtpsoHr_8quandary.0:3,_RINvMNtNtCs8xvirJzNMvV_4core5slice5asciiSh27eq_ignore_ascii_case_chunksKj10_ECskjFBwtpsoHr_8quandary.0:3,_RNvNtNtCskjFBwtpsoHr_8quandary4name4wire23parse_uncompressed_name.0:5,_RNvMs_NtCskjFBwtpsoHr_8quandary4nameNtB4_4Name15initialize_into.0:5,_RINvNtCs8xvirJzNMvV_4core3ptr9drop_glueSTjINtNtCs6xMQmN1AWUs_5alloc5boxed3BoxNtNtCskjFBwtpsoHr_8quandary4name4NameEEEB1h_.0:3,_RINvNtNtCskjFBwtpsoHr_8quandary6server5query11do_referralNtNtB2_10kani_query8MockZoneEB6_.0:2,_RINvNtNtCskjFBwtpsoHr_8quandary6server5query11do_referralNtNtB2_10kani_query8MockZoneEB6_.1:2,_RINvNtNtCskjFBwtpsoHr_8quandary6server5query11do_referralNtNtB2_10kani_query8MockZoneEB6_.2:2" stubs="M1,T0"
+// @harness name=c04_neg_udp props=C04,C05 panics=C04,C01 tier=thorough mem=6 t=3600 kani="--no-assertion-reach-checks" cbmc="--max-field-sensitivity-array-size 256 --unwindset _RNCNvMs_NtNtCskjFBwtpsoHr_8quandary7message6writerNtB6_6Writer30write_compressed_unhinted_name0Ba_.0:4,_RNCNvMs_NtNtCskjFBwtpsoHr_8quandary7message6writerNtB6_6Writer30write_compressed_unhinted_names_0Ba_.0:4,_RNvMs_NtNtCskjFBwtpsoHr_8quandary7message6writerNtB4_6Writer30write_compressed_unhinted_name.0:4,_RNvMs_NtNtCskjFBwtpsoHr_8quandary7message6writerNtB4_6Writer30write_compressed_unhinted_name.1:4,_RINvNvMNtNtCs8xvirJzNMvV_4core5slice5asciiSh27eq_ignore_ascii_case_chunks21eq_ignore_ascii_innerKj10_ECskjFBwtpsoHr_8quandary.0:3,_RNvMNtNtCs8xvirJzNMvV_4core5slice5asciiSh27eq_ignore_ascii_case_simpleCskjFBwtpsoHr_8quandary.0:3,_RINvMNtNtCs8xvirJzNMvV_4core5slice5asciiSh27eq_ignore_ascii_case_chunksKj10_ECskjFBwtpsoHr_8quandary.0:3,_RNvNtNtCskjFBwtpsoHr_8quandary4name4wire23parse_uncompressed_name.0:5,_RNvMs_NtCskjFBwtpsoHr_8quandary4nameNtB4_4Name15initialize_into.0:5,_RINvNtCs8xvirJzNMvV_4core3ptr9drop_glueSTjINtNtCs6xMQmN1AWUs_5alloc5boxed3BoxNtNtCskjFBwtpsoHr_8quandary4name4NameEEEB1h_.0:3,_RINvNtNtCskjFBwtpsoHr_8quandary6server5query11do_referralNtNtB2_10kani_query8MockZoneEB6_.0:2,_RINvNtNtCskjFBwtpsoHr_8quandary6server5query11do_referralNtNtB2_10kani_query8MockZoneEB6_.1:2,_RINvNtNtCskjFBwtpsoHr_8quandary6server5query11do_referralNtNtB2_10kani_query8MockZoneEB6_.2:2" stubs="M1,T0"
 //   fn="Server::handle_non_axfr_query,answer,add_negative_caching_soa,Writer::add_authority_rr,Writer::try_push,Writer::with_rollback,Writer::clear_rrs,Writer::set_tc"
-//   bound="UDP; question a. A IN; NxDomain: 52 octets needed (SOA with two root names); every size limit 19..=30 (one run each); unwind 7"
+//   bound="UDP; question a. A IN; NxDomain: 52 octets needed (SOA with two root names); size limits 19 20 30 31 51 52 64; unwind 7"
 //   sym="SOA TTL, MINIMUM, 4 SOA octets per run"
-proof!(c04_neg_udp_a, 7, {
-    at_limits!(|l| trunc_neg(true, l); 19 20 21 22 23 24 25 26 27 28 29 30);
-    kani::cover!(true, "limits 19..=30 done");
-});
-
-// @harness name=c04_neg_udp_b props=C04,C05 panics=C04,C01 tier=thorough mem=4 t=2400 kani="--no-assertion-reach-checks" cbmc="--max-field-sensitivity-array-size 256 --unwindset _RNCNvMs_NtNtCskjFBwtpsoHr_8quandary7message6writerNtB6_6Writer30write_compressed_unhinted_name0Ba_.0:4,_RNCNvMs_NtNtCskjFBwtpsoHr_8quandary7message6writerNtB6_6Writer30write_compressed_unhinted_names_0Ba_.0:4,_RNvMs_NtNtCskjFBwtpsoHr_8quandary7message6writerNtB4_6Writer30write_compressed_unhinted_name.0:4,_RNvMs_NtNtCskjFBwtpsoHr_8quandary7message6writerNtB4_6Writer30write_compressed_unhinted_name.1:4,_RINvNvMNtNtCs8xvirJzNMvV_4core5slice5asciiSh27eq_ignore_ascii_case_chunks21eq_ignore_ascii_innerKj10_ECskjFBwtpsoHr_8quandary.0:3,_RNvMNtNtCs8xvirJzNMvV_4core5slice5asciiSh27eq_ignore_ascii_case_simpleCskjFBwtpsoHr_8quandary.0:3,_RINvMNtNtCs8xvirJzNMvV_4core5slice5asciiSh27eq_ignore_ascii_case_chunksKj10_ECskjFBwtpsoHr_8quandary.0:3,_RNvNtNtCskjFBwtpsoHr_8quandary4name4wire23parse_uncompressed_name.0:5,_RNvMs_NtCskjFBwtpsoHr_8quandary4nameNtB4_4Name15initialize_into.0:5,_RINvNtCs8xvirJzNMvV_4core3ptr9drop_glueSTjINtNtCs6xMQmN1AWUs_5alloc5boxed3BoxNtNtCskjFBwtpsoHr_8quandary4name4NameEEEB1h_.0:3,_RINvNtNtCskjFBwtpsoHr_8quandary6server5query11do_referralNtNtB2_10kani_query8MockZoneEB6_.0:2,_RINvNtNtCskjFBwtpsoHr_8quandary6server5query11do_referralNtNtB2_10kani_query8MockZoneEB6_.1:2,_RINvNtNtCskjFBwtpsoHr_8quandary6server5query11do_referralNtNtB2_10kani_query8MockZoneEB6_.2:2" stubs="M1,T0"
-//   fn="Server::handle_non_axfr_query,answer,add_negative_caching_soa,Writer::add_authority_rr,Writer::try_push,Writer::with_rollback,Writer::clear_rrs,Writer::set_tc"
-//   bound="UDP; question a. A IN; NxDomain: 52 octets needed (SOA with two root names); every size limit 31..=42 (one run each); unwind 7"
-//   sym="SOA TTL, MINIMUM, 4 SOA octets per run"
-proof!(c04_neg_udp_b, 7, {
-    at_limits!(|l| trunc_neg(true, l); 31 32 33 34 35 36 37 38 39 40 41 42);
-    kani::cover!(true, "limits 31..=42 done");
-});
-
-// @harness name=c04_neg_udp_c props=C04,C05 panics=C04,C01 tier=thorough mem=4 t=2400 kani="--no-assertion-reach-checks" cbmc="--max-field-sensitivity-array-size 256 --unwindset _RNCNvMs_NtNtCskjFBwtpsoHr_8quandary7message6writerNtB6_6Writer30write_compressed_unhinted_name0Ba_.0:4,_RNCNvMs_NtNtCskjFBwtpsoHr_8quandary7message6writerNtB6_6Writer30write_compressed_unhinted_names_0Ba_.0:4,_RNvMs_NtNtCskjFBwtpsoHr_8quandary7message6writerNtB4_6Writer30write_compressed_unhinted_name.0:4,_RNvMs_NtNtCskjFBwtpsoHr_8quandary7message6writerNtB4_6Writer30write_compressed_unhinted_name.1:4,_RINvNvMNtNtCs8xvirJzNMvV_4core5slice5asciiSh27eq_ignore_ascii_case_chunks21eq_ignore_ascii_innerKj10_ECskjFBwtpsoHr_8quandary.0:3,_RNvMNtNtCs8xvirJzNMvV_4core5slice5asciiSh27eq_ignore_ascii_case_simpleCskjFBwtpsoHr_8quandary.0:3,_RINvMNtNtCs8xvirJzNMvV_4core5slice5asciiSh27eq_ignore_ascii_case_chunksKj10_ECskjFBwtpsoHr_8quandary.0:3,_RNvNtNtCskjFBwtpsoHr_8quandary4name4wire23parse_uncompressed_name.0:5,_RNvMs_NtCskjFBwtpsoHr_8quandary4nameNtB4_4Name15initialize_into.0:5,_RINvNtCs8xvirJzNMvV_4core3ptr9drop_glueSTjINtNtCs6xMQmN1AWUs_5alloc5boxed3BoxNtNtCskjFBwtpsoHr_8quandary4name4NameEEEB1h_.0:3,_RINvNtNtCskjFBwtpsoHr_8quandary6server5query11do_referralNtNtB2_10kani_query8MockZoneEB6_.0:2,_RINvNtNtCskjFBwtpsoHr_8quandary6server5query11do_referralNtNtB2_10kani_query8MockZoneEB6_.1:2,_RINvNtNtCskjFBwtpsoHr_8quandary6server5query11do_referralNtNtB2_10kani_query8MockZoneEB6_.2:2" stubs="M1,T0"
-//   fn="Server::handle_non_axfr_query,answer,add_negative_caching_soa,Writer::add_authority_rr,Writer::try_push,Writer::with_rollback,Writer::clear_rrs,Writer::set_tc"
-//   bound="UDP; question a. A IN; NxDomain: 52 octets needed (SOA with two root names); every size limit 43..=54 (one run each); unwind 7"
-//   sym="SOA TTL, MINIMUM, 4 SOA octets per run"
-proof!(c04_neg_udp_c, 7, {
-    at_limits!(|l| trunc_neg(true, l); 43 44 45 46 47 48 49 50 51 52 53 54);
-    kani::cover!(true, "limits 43..=54 done");
-});
-
-// @harness name=c04_neg_udp_d props=C04,C05 panics=C04,C01 tier=thorough mem=4 t=2400 kani="--no-assertion-reach-checks" cbmc="--max-field-sensitivity-array-size 256 --unwindset _RNCNvMs_NtNtCskjFBwtpsoHr_8quandary7message6writerNtB6_6Writer30write_compressed_unhinted_name0Ba_.0:4,_RNCNvMs_NtNtCskjFBwtpsoHr_8quandary7message6writerNtB6_6Writer30write_compressed_unhinted_names_0Ba_.0:4,_RNvMs_NtNtCskjFBwtpsoHr_8quandary7message6writerNtB4_6Writer30write_compressed_unhinted_name.0:4,_RNvMs_NtNtCskjFBwtpsoHr_8quandary7message6writerNtB4_6Writer30write_compressed_unhinted_name.1:4,_RINvNvMNtNtCs8xvirJzNMvV_4core5slice5asciiSh27eq_ignore_ascii_case_chunks21eq_ignore_ascii_innerKj10_ECskjFBwtpsoHr_8quandary.0:3,_RNvMNtNtCs8xvirJzNMvV_4core5slice5asciiSh27eq_ignore_ascii_case_simpleCskjFBwtpsoHr_8quandary.0:3,_RINvMNtNtCs8xvirJzNMvV_4core5slice5asciiSh27eq_ignore_ascii_case_chunksKj10_ECskjFBwtpsoHr_8quandary.0:3,_RNvNtNtCskjFBwtpsoHr_8quandary4name4wire23parse_uncompressed_name.0:5,_RNvMs_NtCskjFBwtpsoHr_8quandary4nameNtB4_4Name15initialize_into.0:5,_RINvNtCs8xvirJzNMvV_4core3ptr9drop_glueSTjINtNtCs6xMQmN1AWUs_5alloc5boxed3BoxNtNtCskjFBwtpsoHr_8quandary4name4NameEEEB1h_.0:3,_RINvNtNtCskjFBwtpsoHr_8quandary6server5query11do_referralNtNtB2_10kani_query8MockZoneEB6_.0:2,_RINvNtNtCskjFBwtpsoHr_8quandary6server5query11do_referralNtNtB2_10kani_query8MockZoneEB6_.1:2,_RINvNtNtCskjFBwtpsoHr_8quandary6server5query11do_referralNtNtB2_10kani_query8MockZoneEB6_.2:2" stubs="M1,T0"
-//   fn="Server::handle_non_axfr_query,answer,add_negative_caching_soa,Writer::add_authority_rr,Writer::try_push,Writer::with_rollback,Writer::clear_rrs,Writer::set_tc"
-//   bound="UDP; question a. A IN; NxDomain: 52 octets needed (SOA with two root names); every size limit 55..=64 (one run each); unwind 7"
-//   sym="SOA TTL, MINIMUM, 4 SOA octets per run"
-proof!(c04_neg_udp_d, 7, {
-    at_limits!(|l| trunc_neg(true, l); 55 56 57 58 59 60 61 62 63 64);
-    kani::cover!(true, "limits 55..=64 done");
+proof!(c04_neg_udp, 7, {
+    at_limits!(|l| trunc_neg(true, l); 19 20 30 31 51 52 64);
+    kani::cover!(true, "limits done");
 });
 
 /// Referral(cut a., NS b.a.) with glue: NS needs 35 octets, + A 51,
@@ -2317,7 +2280,7 @@ proof_ref!(c04_glue_q, 7, {
     kani::cover!(true, "boundary limits done");
 });
 
-// @harness name=c04_glue_a_udp_a props=C04,C05 panics=C04,C01 tier=thorough mem=4 t=2400 kani="--no-assertion-reach-checks" cbmc="--max-field-sensitivity-array-size 256 --unwindset _RNCNvMs_NtNtCskjFBwtpsoHr_8quandary7message6writerNtB6_6Writer30write_compressed_unhinted_name0Ba_.0:4,_RNCNvMs_NtNtCskjFBwtpsoHr_8quandary7message6writerNtB6_6Writer30write_compressed_unhinted_names_0Ba_.0:4,_RNvMs_NtNtCskjFBwtpsoHr_8quandary7message6writerNtB4_6Writer30write_compressed_unhinted_name.0:4,_RNvMs_NtNtCskjFBwtpsoHr_8quandary7message6writerNtB4_6Writer30write_compressed_unhinted_name.1:4,_RINvNvMNtNtCs8xvirJzNMvV_4core5slice5asciiSh27eq_ignore_ascii_case_chunks21eq_ignore_ascii_innerKj10_ECskjFBwtpsoHr_8quandary.0:3,_RNvMNtNtCs8xvirJzNMvV_4core5slice5asciiSh27eq_ignore_ascii_case_simpleCskjFBwtpsoHr_8quandary.0:3,_RINvMNtNtCs8xvirJzNMvV_4core5slice5asciiSh27eq_ignore_ascii_case_chunksKj10_ECskjFBwtpsoHr_8quandary.0:3,_RNvNtNtCskjFBwtpsoHr_8quandary4name4wire23parse_uncompressed_name.0:5,_RNvMs_NtCskjFBwtpsoHr_8quandary4nameNtB4_4Name15initialize_into.0:5,_RINvNtCs8xvirJzNMvV_4core3ptr9drop_glueSTjINtNtCs6xMQmN1AWUs_5alloc5boxed3BoxNtNtCskjFBwtpsoHr_8quandary4name4NameEEEB1h_.0:3,_RINvNtNtCskjFBwtpsoHr_8quandary6server5query11do_referralNtNtB2_10kani_query8MockZoneEB6_.0:2,_RINvNtNtCskjFBwtpsoHr_8quandary6server5query11do_referralNtNtB2_10kani_query8MockZoneEB6_.1:2,_RINvNtNtCskjFBwtpsoHr_8quandary6server5query11do_referralNtNtB2_10kani_query8MockZoneEB6_.2:2" stubs="M1,T0,N1"
+// @harness name=c04_glue_a_udp_a props=C04,C05 panics=C04,C01 tier=thorough mem=6 t=3600 kani="--no-assertion-reach-checks" cbmc="--max-field-sensitivity-array-size 256 --unwindset _RNCNvMs_NtNtCskjFBwtpsoHr_8quandary7message6writerNtB6_6Writer30write_compressed_unhinted_name0Ba_.0:4,_RNCNvMs_NtNtCskjFBwtpsoHr_8quandary7message6writerNtB6_6Writer30write_compressed_unhinted_names_0Ba_.0:4,_RNvMs_NtNtCskjFBwtpsoHr_8quandary7message6writerNtB4_6Writer30write_compressed_unhinted_name.0:4,_RNvMs_NtNtCskjFBwtpsoHr_8quandary7message6writerNtB4_6Writer30write_compressed_unhinted_name.1:4,_RINvNvMNtNtCs8xvirJzNMvV_4core5slice5asciiSh27eq_ignore_ascii_case_chunks21eq_ignore_ascii_innerKj10_ECskjFBwtpsoHr_8quandary.0:3,_RNvMNtNtCs8xvirJzNMvV_4core5slice5asciiSh27eq_ignore_ascii_case_simpleCskjFBwtpsoHr_8quandary.0:3,_RINvMNtNtCs8xvirJzNMvV_4core5slice5asciiSh27eq_ignore_ascii_case_chunksKj10_ECskjFBwtpsoHr_8quandary.0:3,_RNvNtNtCskjFBwtpsoHr_8quandary4name4wire23parse_uncompressed_name.0:5,_RNvMs_NtCskjFBwtpsoHr_8quandary4nameNtB4_4Name15initialize_into.0:5,_RINvNtCs8xvirJzNMvV_4core3ptr9drop_glueSTjINtNtCs6xMQmN1AWUs_5alloc5boxed3BoxNtNtCskjFBwtpsoHr_8quandary4name4NameEEEB1h_.0:3,_RINvNtNtCskjFBwtpsoHr_8quandary6server5query11do_referralNtNtB2_10kani_query8MockZoneEB6_.0:2,_RINvNtNtCskjFBwtpsoHr_8quandary6server5query11do_referralNtNtB2_10kani_query8MockZoneEB6_.1:2,_RINvNtNtCskjFBwtpsoHr_8quandary6server5query11do_referralNtNtB2_10kani_query8MockZoneEB6_.2:2" stubs="M1,T0,N1"
 //   fn="Server::handle_non_axfr_query,answer,do_referral,add_additional_addresses,execute_allowing_truncation,Writer::add_authority_rrset,Writer::add_additional_rrset,Writer::with_rollback,Writer::clear_rrs,Writer::set_tc"
 //   bound="UDP; Referral(cut a., NS b.a.) with glue A (51 octets needed): TC and no records below, never a referral without its glue; every size limit 19..=30 (one run each); unwind 7"
 //   sym="NS TTL, TTLs and octets of the address records per run"
@@ -2326,7 +2289,7 @@ proof_ref!(c04_glue_a_udp_a, 7, {
     kani::cover!(true, "limits 19..=30 done");
 });
 
-// @harness name=c04_glue_a_udp_b props=C04,C05 panics=C04,C01 tier=thorough mem=4 t=2400 kani="--no-assertion-reach-checks" cbmc="--max-field-sensitivity-array-size 256 --unwindset _RNCNvMs_NtNtCskjFBwtpsoHr_8quandary7message6writerNtB6_6Writer30write_compressed_unhinted_name0Ba_.0:4,_RNCNvMs_NtNtCskjFBwtpsoHr_8quandary7message6writerNtB6_6Writer30write_compressed_unhinted_names_0Ba_.0:4,_RNvMs_NtNtCskjFBwtpsoHr_8quandary7message6writerNtB4_6Writer30write_compressed_unhinted_name.0:4,_RNvMs_NtNtCskjFBwtpsoHr_8quandary7message6writerNtB4_6Writer30write_compressed_unhinted_name.1:4,_RINvNvMNtNtCs8xvirJzNMvV_4core5slice5asciiSh27eq_ignore_ascii_case_chunks21eq_ignore_ascii_innerKj10_ECskjFBwtpsoHr_8quandary.0:3,_RNvMNtNtCs8xvirJzNMvV_4core5slice5asciiSh27eq_ignore_ascii_case_simpleCskjFBwtpsoHr_8quandary.0:3,_RINvMNtNtCs8xvirJzNMvV_4core5slice5asciiSh27eq_ignore_ascii_case_chunksKj10_ECskjFBwtpsoHr_8quandary.0:3,_RNvNtNtCskjFBwtpsoHr_8quandary4name4wire23parse_uncompressed_name.0:5,_RNvMs_NtCskjFBwtpsoHr_8quandary4nameNtB4_4Name15initialize_into.0:5,_RINvNtCs8xvirJzNMvV_4core3ptr9drop_glueSTjINtNtCs6xMQmN1AWUs_5alloc5boxed3BoxNtNtCskjFBwtpsoHr_8quandary4name4NameEEEB1h_.0:3,_RINvNtNtCskjFBwtpsoHr_8quandary6server5query11do_referralNtNtB2_10kani_query8MockZoneEB6_.0:2,_RINvNtNtCskjFBwtpsoHr_8quandary6server5query11do_referralNtNtB2_10kani_query8MockZoneEB6_.1:2,_RINvNtNtCskjFBwtpsoHr_8quandary6server5query11do_referralNtNtB2_10kani_query8MockZoneEB6_.2:2" stubs="M1,T0,N1"
+// @harness name=c04_glue_a_udp_b props=C04,C05 panics=C04,C01 tier=thorough mem=6 t=3600 kani="--no-assertion-reach-checks" cbmc="--max-field-sensitivity-array-size 256 --unwindset _RNCNvMs_NtNtCskjFBwtpsoHr_8quandary7message6writerNtB6_6Writer30write_compressed_unhinted_name0Ba_.0:4,_RNCNvMs_NtNtCskjFBwtpsoHr_8quandary7message6writerNtB6_6Writer30write_compressed_unhinted_names_0Ba_.0:4,_RNvMs_NtNtCskjFBwtpsoHr_8quandary7message6writerNtB4_6Writer30write_compressed_unhinted_name.0:4,_RNvMs_NtNtCskjFBwtpsoHr_8quandary7message6writerNtB4_6Writer30write_compressed_unhinted_name.1:4,_RINvNvMNtNtCs8xvirJzNMvV_4core5slice5asciiSh27eq_ignore_ascii_case_chunks21eq_ignore_ascii_innerKj10_ECskjFBwtpsoHr_8quandary.0:3,_RNvMNtNtCs8xvirJzNMvV_4core5slice5asciiSh27eq_ignore_ascii_case_simpleCskjFBwtpsoHr_8quandary.0:3,_RINvMNtNtCs8xvirJzNMvV_4core5slice5asciiSh27eq_ignore_ascii_case_chunksKj10_ECskjFBwtpsoHr_8quandary.0:3,_RNvNtNtCskjFBwtpsoHr_8quandary4name4wire23parse_uncompressed_name.0:5,_RNvMs_NtCskjFBwtpsoHr_8quandary4nameNtB4_4Name15initialize_into.0:5,_RINvNtCs8xvirJzNMvV_4core3ptr9drop_glueSTjINtNtCs6xMQmN1AWUs_5alloc5boxed3BoxNtNtCskjFBwtpsoHr_8quandary4name4NameEEEB1h_.0:3,_RINvNtNtCskjFBwtpsoHr_8quandary6server5query11do_referralNtNtB2_10kani_query8MockZoneEB6_.0:2,_RINvNtNtCskjFBwtpsoHr_8quandary6server5query11do_referralNtNtB2_10kani_query8MockZoneEB6_.1:2,_RINvNtNtCskjFBwtpsoHr_8quandary6server5query11do_referralNtNtB2_10kani_query8MockZoneEB6_.2:2" stubs="M1,T0,N1"
 //   fn="Server::handle_non_axfr_query,answer,do_referral,add_additional_addresses,execute_allowing_truncation,Writer::add_authority_rrset,Writer::add_additional_rrset,Writer::with_rollback,Writer::clear_rrs,Writer::set_tc"
 //   bound="UDP; Referral(cut a., NS b.a.) with glue A (51 octets needed): TC and no records below, never a referral without its glue; every size limit 31..=42 (one run each); unwind 7"
 //   sym="NS TTL, TTLs and octets of the address records per run"
@@ -2335,7 +2298,7 @@ proof_ref!(c04_glue_a_udp_b, 7, {
     kani::cover!(true, "limits 31..=42 done");
 });
 
-// @harness name=c04_glue_a_udp_c props=C04,C05 panics=C04,C01 tier=thorough mem=4 t=2400 kani="--no-assertion-reach-checks" cbmc="--max-field-sensitivity-array-size 256 --unwindset _RNCNvMs_NtNtCskjFBwtpsoHr_8quandary7message6writerNtB6_6Writer30write_compressed_unhinted_name0Ba_.0:4,_RNCNvMs_NtNtCskjFBwtpsoHr_8quandary7message6writerNtB6_6Writer30write_compressed_unhinted_names_0Ba_.0:4,_RNvMs_NtNtCskjFBwtpsoHr_8quandary7message6writerNtB4_6Writer30write_compressed_unhinted_name.0:4,_RNvMs_NtNtCskjFBwtpsoHr_8quandary7message6writerNtB4_6Writer30write_compressed_unhinted_name.1:4,_RINvNvMNtNtCs8xvirJzNMvV_4core5slice5asciiSh27eq_ignore_ascii_case_chunks21eq_ignore_ascii_innerKj10_ECskjFBwtpsoHr_8quandary.0:3,_RNvMNtNtCs8xvirJzNMvV_4core5slice5asciiSh27eq_ignore_ascii_case_simpleCskjFBwtpsoHr_8quandary.0:3,_RINvMNtNtCs8xvirJzNMvV_4core5slice5asciiSh27eq_ignore_ascii_case_chunksKj10_ECskjFBwtpsoHr_8quandary.0:3,_RNvNtNtCskjFBwtpsoHr_8quandary4name4wire23parse_uncompressed_name.0:5,_RNvMs_NtCskjFBwtpsoHr_8quandary4nameNtB4_4Name15initialize_into.0:5,_RINvNtCs8xvirJzNMvV_4core3ptr9drop_glueSTjINtNtCs6xMQmN1AWUs_5alloc5boxed3BoxNtNtCskjFBwtpsoHr_8quandary4name4NameEEEB1h_.0:3,_RINvNtNtCskjFBwtpsoHr_8quandary6server5query11do_referralNtNtB2_10kani_query8MockZoneEB6_.0:2,_RINvNtNtCskjFBwtpsoHr_8quandary6server5query11do_referralNtNtB2_10kani_query8MockZoneEB6_.1:2,_RINvNtNtCskjFBwtpsoHr_8quandary6server5query11do_referralNtNtB2_10kani_query8MockZoneEB6_.2:2" stubs="M1,T0,N1"
+// @harness name=c04_glue_a_udp_c props=C04,C05 panics=C04,C01 tier=thorough mem=6 t=3600 kani="--no-assertion-reach-checks" cbmc="--max-field-sensitivity-array-size 256 --unwindset _RNCNvMs_NtNtCskjFBwtpsoHr_8quandary7message6writerNtB6_6Writer30write_compressed_unhinted_name0Ba_.0:4,_RNCNvMs_NtNtCskjFBwtpsoHr_8quandary7message6writerNtB6_6Writer30write_compressed_unhinted_names_0Ba_.0:4,_RNvMs_NtNtCskjFBwtpsoHr_8quandary7message6writerNtB4_6Writer30write_compressed_unhinted_name.0:4,_RNvMs_NtNtCskjFBwtpsoHr_8quandary7message6writerNtB4_6Writer30write_compressed_unhinted_name.1:4,_RINvNvMNtNtCs8xvirJzNMvV_4core5slice5asciiSh27eq_ignore_ascii_case_chunks21eq_ignore_ascii_innerKj10_ECskjFBwtpsoHr_8quandary.0:3,_RNvMNtNtCs8xvirJzNMvV_4core5slice5asciiSh27eq_ignore_ascii_case_simpleCskjFBwtpsoHr_8quandary.0:3,_RINvMNtNtCs8xvirJzNMvV_4core5slice5asciiSh27eq_ignore_ascii_case_chunksKj10_ECskjFBwtpsoHr_8quandary.0:3,_RNvNtNtCskjFBwtpsoHr_8quandary4name4wire23parse_uncompressed_name.0:5,_RNvMs_NtCskjFBwtpsoHr_8quandary4nameNtB4_4Name15initialize_into.0:5,_RINvNtCs8xvirJzNMvV_4core3ptr9drop_glueSTjINtNtCs6xMQmN1AWUs_5alloc5boxed3BoxNtNtCskjFBwtpsoHr_8quandary4name4NameEEEB1h_.0:3,_RINvNtNtCskjFBwtpsoHr_8quandary6server5query11do_referralNtNtB2_10kani_query8MockZoneEB6_.0:2,_RINvNtNtCskjFBwtpsoHr_8quandary6server5query11do_referralNtNtB2_10kani_query8MockZoneEB6_.1:2,_RINvNtNtCskjFBwtpsoHr_8quandary6server5query11do_referralNtNtB2_10kani_query8MockZoneEB6_.2:2" stubs="M1,T0,N1"
 //   fn="Server::handle_non_axfr_query,answer,do_referral,add_additional_addresses,execute_allowing_truncation,Writer::add_authority_rrset,Writer::add_additional_rrset,Writer::with_rollback,Writer::clear_rrs,Writer::set_tc"
 //   bound="UDP; Referral(cut a., NS b.a.) with glue A (51 octets needed): TC and no records below, never a referral without its glue; every size limit 43..=54 (one run each); unwind 7"
 //   sym="NS TTL, TTLs and octets of the address records per run"
@@ -2344,7 +2307,7 @@ proof_ref!(c04_glue_a_udp_c, 7, {
     kani::cover!(true, "limits 43..=54 done");
 });
 
-// @harness name=c04_glue_a_udp_d props=C04,C05 panics=C04,C01 tier=thorough mem=4 t=2400 kani="--no-assertion-reach-checks" cbmc="--max-field-sensitivity-array-size 256 --unwindset _RNCNvMs_NtNtCskjFBwtpsoHr_8quandary7message6writerNtB6_6Writer30write_compressed_unhinted_name0Ba_.0:4,_RNCNvMs_NtNtCskjFBwtpsoHr_8quandary7message6writerNtB6_6Writer30write_compressed_unhinted_names_0Ba_.0:4,_RNvMs_NtNtCskjFBwtpsoHr_8quandary7message6writerNtB4_6Writer30write_compressed_unhinted_name.0:4,_RNvMs_NtNtCskjFBwtpsoHr_8quandary7message6writerNtB4_6Writer30write_compressed_unhinted_name.1:4,_RINvNvMNtNtCs8xvirJzNMvV_4core5slice5asciiSh27eq_ignore_ascii_case_chunks21eq_ignore_ascii_innerKj10_ECskjFBwtpsoHr_8quandary.0:3,_RNvMNtNtCs8xvirJzNMvV_4core5slice5asciiSh27eq_ignore_ascii_case_simpleCskjFBwtpsoHr_8quandary.0:3,_RINvMNtNtCs8xvirJzNMvV_4core5slice5asciiSh27eq_ignore_ascii_case_chunksKj10_ECskjFBwtpsoHr_8quandary.0:3,_RNvNtNtCskjFBwtpsoHr_8quandary4name4wire23parse_uncompressed_name.0:5,_RNvMs_NtCskjFBwtpsoHr_8quandary4nameNtB4_4Name15initialize_into.0:5,_RINvNtCs8xvirJzNMvV_4core3ptr9drop_glueSTjINtNtCs6xMQmN1AWUs_5alloc5boxed3BoxNtNtCskjFBwtpsoHr_8quandary4name4NameEEEB1h_.0:3,_RINvNtNtCskjFBwtpsoHr_8quandary6server5query11do_referralNtNtB2_10kani_query8MockZoneEB6_.0:2,_RINvNtNtCskjFBwtpsoHr_8quandary6server5query11do_referralNtNtB2_10kani_query8MockZoneEB6_.1:2,_RINvNtNtCskjFBwtpsoHr_8quandary6server5query11do_referralNtNtB2_10kani_query8MockZoneEB6_.2:2" stubs="M1,T0,N1"
+// @harness name=c04_glue_a_udp_d props=C04,C05 panics=C04,C01 tier=thorough mem=6 t=3600 kani="--no-assertion-reach-checks" cbmc="--max-field-sensitivity-array-size 256 --unwindset _RNCNvMs_NtNtCskjFBwtpsoHr_8quandary7message6writerNtB6_6Writer30write_compressed_unhinted_name0Ba_.0:4,_RNCNvMs_NtNtCskjFBwtpsoHr_8quandary7message6writerNtB6_6Writer30write_compressed_unhinted_names_0Ba_.0:4,_RNvMs_NtNtCskjFBwtpsoHr_8quandary7message6writerNtB4_6Writer30write_compressed_unhinted_name.0:4,_RNvMs_NtNtCskjFBwtpsoHr_8quandary7message6writerNtB4_6Writer30write_compressed_unhinted_name.1:4,_RINvNvMNtNtCs8xvirJzNMvV_4core5slice5asciiSh27eq_ignore_ascii_case_chunks21eq_ignore_ascii_innerKj10_ECskjFBwtpsoHr_8quandary.0:3,_RNvMNtNtCs8xvirJzNMvV_4core5slice5asciiSh27eq_ignore_ascii_case_simpleCskjFBwtpsoHr_8quandary.0:3,_RINvMNtNtCs8xvirJzNMvV_4core5slice5asciiSh27eq_ignore_ascii_case_chunksKj10_ECskjFBwtpsoHr_8quandary.0:3,_RNvNtNtCskjFBwtpsoHr_8quandary4name4wire23parse_uncompressed_name.0:5,_RNvMs_NtCskjFBwtpsoHr_8quandary4nameNtB4_4Name15initialize_into.0:5,_RINvNtCs8xvirJzNMvV_4core3ptr9drop_glueSTjINtNtCs6xMQmN1AWUs_5alloc5boxed3BoxNtNtCskjFBwtpsoHr_8quandary4name4NameEEEB1h_.0:3,_RINvNtNtCskjFBwtpsoHr_8quandary6server5query11do_referralNtNtB2_10kani_query8MockZoneEB6_.0:2,_RINvNtNtCskjFBwtpsoHr_8quandary6server5query11do_referralNtNtB2_10kani_query8MockZoneEB6_.1:2,_RINvNtNtCskjFBwtpsoHr_8quandary6server5query11do_referralNtNtB2_10kani_query8MockZoneEB6_.2:2" stubs="M1,T0,N1"
 //   fn="Server::handle_non_axfr_query,answer,do_referral,add_additional_addresses,execute_allowing_truncation,Writer::add_authority_rrset,Writer::add_additional_rrset,Writer::with_rollback,Writer::clear_rrs,Writer::set_tc"
 //   bound="UDP; Referral(cut a., NS b.a.) with glue A (51 octets needed): TC and no records below, never a referral without its glue; every size limit 55..=64 (one run each); unwind 7"
 //   sym="NS TTL, TTLs and octets of the address records per run"
@@ -2353,7 +2316,7 @@ proof_ref!(c04_glue_a_udp_d, 7, {
     kani::cover!(true, "limits 55..=64 done");
 });
 
-// @harness name=c04_glue_a_tcp props=C04,C05 panics=C04,C01 tier=thorough mem=4 t=2400 kani="--no-assertion-reach-checks" cbmc="--max-field-sensitivity-array-size 256 --unwindset _RNCNvMs_NtNtCskjFBwtpsoHr_8quandary7message6writerNtB6_6Writer30write_compressed_unhinted_name0Ba_.0:4,_RNCNvMs_NtNtCskjFBwtpsoHr_8quandary7message6writerNtB6_6Writer30write_compressed_unhinted_names_0Ba_.0:4,_RNvMs_NtNtCskjFBwtpsoHr_8quandary7message6writerNtB4_6Writer30write_compressed_unhinted_name.0:4,_RNvMs_NtNtCskjFBwtpsoHr_8quandary7message6writerNtB4_6Writer30write_compressed_unhinted_name.1:4,_RINvNvMNtNtCs8xvirJzNMvV_4core5slice5asciiSh27eq_ignore_ascii_case_chunks21eq_ignore_ascii_innerKj10_ECskjFBwtpsoHr_8quandary.0:3,_RNvMNtNtCs8xvirJzNMvV_4core5slice5asciiSh27eq_ignore_ascii_case_simpleCskjFBwtpsoHr_8quandary.0:3,_RINvMNtNtCs8xvirJzNMvV_4core5slice5asciiSh27eq_ignore_ascii_case_chunksKj10_ECskjFBwtpsoHr_8quandary.0:3,_RNvNtNtCskjFBwtpsoHr_8quandary4name4wire23parse_uncompressed_name.0:5,_RNvMs_NtCskjFBwtpsoHr_8quandary4nameNtB4_4Name15initialize_into.0:5,_RINvNtCs8xvirJzNMvV_4core3ptr9drop_glueSTjINtNtCs6xMQmN1AWUs_5alloc5boxed3BoxNtNtCskjFBwtpsoHr_8quandary4name4NameEEEB1h_.0:3,_RINvNtNtCskjFBwtpsoHr_8quandary6server5query11do_referralNtNtB2_10kani_query8MockZoneEB6_.0:2,_RINvNtNtCskjFBwtpsoHr_8quandary6server5query11do_referralNtNtB2_10kani_query8MockZoneEB6_.1:2,_RINvNtNtCskjFBwtpsoHr_8quandary6server5query11do_referralNtNtB2_10kani_query8MockZoneEB6_.2:2" stubs="M1,T0,N1"
+// @harness name=c04_glue_a_tcp props=C04,C05 panics=C04,C01 tier=thorough mem=6 t=3600 kani="--no-assertion-reach-checks" cbmc="--max-field-sensitivity-array-size 256 --unwindset _RNCNvMs_NtNtCskjFBwtpsoHr_8quandary7message6writerNtB6_6Writer30write_compressed_unhinted_name0Ba_.0:4,_RNCNvMs_NtNtCskjFBwtpsoHr_8quandary7message6writerNtB6_6Writer30write_compressed_unhinted_names_0Ba_.0:4,_RNvMs_NtNtCskjFBwtpsoHr_8quandary7message6writerNtB4_6Writer30write_compressed_unhinted_name.0:4,_RNvMs_NtNtCskjFBwtpsoHr_8quandary7message6writerNtB4_6Writer30write_compressed_unhinted_name.1:4,_RINvNvMNtNtCs8xvirJzNMvV_4core5slice5asciiSh27eq_ignore_ascii_case_chunks21eq_ignore_ascii_innerKj10_ECskjFBwtpsoHr_8quandary.0:3,_RNvMNtNtCs8xvirJzNMvV_4core5slice5asciiSh27eq_ignore_ascii_case_simpleCskjFBwtpsoHr_8quandary.0:3,_RINvMNtNtCs8xvirJzNMvV_4core5slice5asciiSh27eq_ignore_ascii_case_chunksKj10_ECskjFBwtpsoHr_8quandary.0:3,_RNvNtNtCskjFBwtpsoHr_8quandary4name4wire23parse_uncompressed_name.0:5,_RNvMs_NtCskjFBwtpsoHr_8quandary4nameNtB4_4Name15initialize_into.0:5,_RINvNtCs8xvirJzNMvV_4core3ptr9drop_glueSTjINtNtCs6xMQmN1AWUs_5alloc5boxed3BoxNtNtCskjFBwtpsoHr_8quandary4name4NameEEEB1h_.0:3,_RINvNtNtCskjFBwtpsoHr_8quandary6server5query11do_referralNtNtB2_10kani_query8MockZoneEB6_.0:2,_RINvNtNtCskjFBwtpsoHr_8quandary6server5query11do_referralNtNtB2_10kani_query8MockZoneEB6_.1:2,_RINvNtNtCskjFBwtpsoHr_8quandary6server5query11do_referralNtNtB2_10kani_query8MockZoneEB6_.2:2" stubs="M1,T0,N1"
 //   fn="Server::handle_non_axfr_query,answer,do_referral,add_additional_addresses,execute_allowing_truncation,Writer::add_authority_rrset,Writer::add_additional_rrset,Writer::with_rollback,Writer::clear_rrs,Writer::set_tc"
 //   bound="TCP context; Referral(cut a., NS b.a.) with glue A; size limits 19 34 35 36 50 51 64: SERVFAIL without records instead of TC; unwind 7"
 //   sym="NS TTL, TTLs and octets of the address records per run"
@@ -2362,13 +2325,13 @@ proof_ref!(c04_glue_a_tcp, 7, {
     kani::cover!(true, "TCP runs done");
 });
 
-// @harness name=c04_glue_aaaa_udp props=C04,C05 panics=C04,C01 tier=thorough mem=4 t=2400 kani="--no-assertion-reach-checks" cbmc="--max-field-sensitivity-array-size 256 --unwindset _RNCNvMs_NtNtCskjFBwtpsoHr_8quandary7message6writerNtB6_6Writer30write_compressed_unhinted_name0Ba_.0:4,_RNCNvMs_NtNtCskjFBwtpsoHr_8quandary7message6writerNtB6_6Writer30write_compressed_unhinted_names_0Ba_.0:4,_RNvMs_NtNtCskjFBwtpsoHr_8quandary7message6writerNtB4_6Writer30write_compressed_unhinted_name.0:4,_RNvMs_NtNtCskjFBwtpsoHr_8quandary7message6writerNtB4_6Writer30write_compressed_unhinted_name.1:4,_RINvNvMNtNtCs8xvirJzNMvV_4core5slice5asciiSh27eq_ignore_ascii_case_chunks21eq_ignore_ascii_innerKj10_ECskjFBwtpsoHr_8quandary.0:3,_RNvMNtNtCs8xvirJzNMvV_4core5slice5asciiSh27eq_ignore_ascii_case_simpleCskjFBwtpsoHr_8quandary.0:3,_RINvMNtNtCs8xvirJzNMvV_4core5slice5asciiSh27eq_ignore_ascii_case_chunksKj10_ECskjFBwtpsoHr_8quandary.0:3,_RNvNtNtCskjFBwtpsoHr_8quandary4name4wire23parse_uncompressed_name.0:5,_RNvMs_NtCskjFBwtpsoHr_8quandary4nameNtB4_4Name15initialize_into.0:5,_RINvNtCs8xvirJzNMvV_4core3ptr9drop_glueSTjINtNtCs6xMQmN1AWUs_5alloc5boxed3BoxNtNtCskjFBwtpsoHr_8quandary4name4NameEEEB1h_.0:3,_RINvNtNtCskjFBwtpsoHr_8quandary6server5query11do_referralNtNtB2_10kani_query8MockZoneEB6_.0:2,_RINvNtNtCskjFBwtpsoHr_8quandary6server5query11do_referralNtNtB2_10kani_query8MockZoneEB6_.1:2,_RINvNtNtCskjFBwtpsoHr_8quandary6server5query11do_referralNtNtB2_10kani_query8MockZoneEB6_.2:2" stubs="M1,T0,N1"
+// @harness name=c04_glue_aaaa_udp props=C04,C05 panics=C04,C01 tier=thorough mem=6 t=3600 kani="--no-assertion-reach-checks" cbmc="--max-field-sensitivity-array-size 256 --unwindset _RNCNvMs_NtNtCskjFBwtpsoHr_8quandary7message6writerNtB6_6Writer30write_compressed_unhinted_name0Ba_.0:4,_RNCNvMs_NtNtCskjFBwtpsoHr_8quandary7message6writerNtB6_6Writer30write_compressed_unhinted_names_0Ba_.0:4,_RNvMs_NtNtCskjFBwtpsoHr_8quandary7message6writerNtB4_6Writer30write_compressed_unhinted_name.0:4,_RNvMs_NtNtCskjFBwtpsoHr_8quandary7message6writerNtB4_6Writer30write_compressed_unhinted_name.1:4,_RINvNvMNtNtCs8xvirJzNMvV_4core5slice5asciiSh27eq_ignore_ascii_case_chunks21eq_ignore_ascii_innerKj10_ECskjFBwtpsoHr_8quandary.0:3,_RNvMNtNtCs8xvirJzNMvV_4core5slice5asciiSh27eq_ignore_ascii_case_simpleCskjFBwtpsoHr_8quandary.0:3,_RINvMNtNtCs8xvirJzNMvV_4core5slice5asciiSh27eq_ignore_ascii_case_chunksKj10_ECskjFBwtpsoHr_8quandary.0:3,_RNvNtNtCskjFBwtpsoHr_8quandary4name4wire23parse_uncompressed_name.0:5,_RNvMs_NtCskjFBwtpsoHr_8quandary4nameNtB4_4Name15initialize_into.0:5,_RINvNtCs8xvirJzNMvV_4core3ptr9drop_glueSTjINtNtCs6xMQmN1AWUs_5alloc5boxed3BoxNtNtCskjFBwtpsoHr_8quandary4name4NameEEEB1h_.0:3,_RINvNtNtCskjFBwtpsoHr_8quandary6server5query11do_referralNtNtB2_10kani_query8MockZoneEB6_.0:2,_RINvNtNtCskjFBwtpsoHr_8quandary6server5query11do_referralNtNtB2_10kani_query8MockZoneEB6_.1:2,_RINvNtNtCskjFBwtpsoHr_8quandary6server5query11do_referralNtNtB2_10kani_query8MockZoneEB6_.2:2" stubs="M1,T0,N1"
 //   fn="Server::handle_non_axfr_query,answer,do_referral,add_additional_addresses,execute_allowing_truncation,Writer::add_authority_rrset,Writer::add_additional_rrset,Writer::with_rollback,Writer::clear_rrs,Writer::set_tc"
-//   bound="UDP; Referral(cut a., NS b.a.) with glue AAAA only (63 octets needed) at limits 34 35 36 46 47 62 63 64, and with A + AAAA (79 needed: never fits) at 35 51 63 64; unwind 7"
+//   bound="UDP; Referral(cut a., NS b.a.) with glue AAAA only (63 octets needed) at limits 35 62 63 64, and with A + AAAA (79 needed: never fits) at 51 64; unwind 7"
 //   sym="NS TTL, TTLs and octets of the address records per run"
 proof_ref!(c04_glue_aaaa_udp, 7, {
-    at_limits!(|l| trunc_glue(true, l, false, true); 34 35 36 46 47 62 63 64);
-    at_limits!(|l| trunc_glue(true, l, true, true); 35 51 63 64);
+    at_limits!(|l| trunc_glue(true, l, false, true); 35 62 63 64);
+    at_limits!(|l| trunc_glue(true, l, true, true); 51 64);
     kani::cover!(true, "AAAA runs done");
 });
 
@@ -2383,41 +2346,14 @@ fn trunc_optional(limit: usize) -> (u8, usize) {
     (case, n)
 }
 
-// @harness name=c04_optional_udp_a props=C04,C05 panics=C04,C01 tier=thorough mem=4 t=2400 kani="--no-assertion-reach-checks" cbmc="--max-field-sensitivity-array-size 256 --unwindset _RNCNvMs_NtNtCskjFBwtpsoHr_8quandary7message6writerNtB6_6Writer30write_compressed_unhinted_name0Ba_.0:4,_RNCNvMs_NtNtCskjFBwtpsoHr_8quandary7message6writerNtB6_6Writer30write_compressed_unhinted_names_0Ba_.0:4,_RNvMs_NtNtCskjFBwtpsoHr_8quandary7message6writerNtB4_6Writer30write_compressed_unhinted_name.0:4,_RNvMs_NtNtCskjFBwtpsoHr_8quandary7message6writerNtB4_6Writer30write_compressed_unhinted_name.1:4,_RINvNvMNtNtCs8xvirJzNMvV_4core5slice5asciiSh27eq_ignore_ascii_case_chunks21eq_ignore_ascii_innerKj10_ECskjFBwtpsoHr_8quandary.0:3,_RNvMNtNtCs8xvirJzNMvV_4core5slice5asciiSh27eq_ignore_ascii_case_simpleCskjFBwtpsoHr_8quandary.0:3,_RINvMNtNtCs8xvirJzNMvV_4core5slice5asciiSh27eq_ignore_ascii_case_chunksKj10_ECskjFBwtpsoHr_8quandary.0:3,_RNvNtNtCskjFBwtpsoHr_8quandary4name4wire23parse_uncompressed_name.0:5,_RNvMs_NtCskjFBwtpsoHr_8quandary4nameNtB4_4Name15initialize_into.0:5,_RINvNtCs8xvirJzNMvV_4core3ptr9drop_glueSTjINtNtCs6xMQmN1AWUs_5alloc5boxed3BoxNtNtCskjFBwtpsoHr_8quandary4name4NameEEEB1h_.0:3,_RINvNtNtCskjFBwtpsoHr_8quandary6server5query11do_referralNtNtB2_10kani_query8MockZoneEB6_.0:2,_RINvNtNtCskjFBwtpsoHr_8quandary6server5query11do_referralNtNtB2_10kani_query8MockZoneEB6_.1:2,_RINvNtNtCskjFBwtpsoHr_8quandary6server5query11do_referralNtNtB2_10kani_query8MockZoneEB6_.2:2" stubs="M1,T0,N1"
+// @harness name=c04_optional_udp props=C04,C05 panics=C04,C01 tier=thorough mem=6 t=3600 kani="--no-assertion-reach-checks" cbmc="--max-field-sensitivity-array-size 256 --unwindset _RNCNvMs_NtNtCskjFBwtpsoHr_8quandary7message6writerNtB6_6Writer30write_compressed_unhinted_name0Ba_.0:4,_RNCNvMs_NtNtCskjFBwtpsoHr_8quandary7message6writerNtB6_6Writer30write_compressed_unhinted_names_0Ba_.0:4,_RNvMs_NtNtCskjFBwtpsoHr_8quandary7message6writerNtB4_6Writer30write_compressed_unhinted_name.0:4,_RNvMs_NtNtCskjFBwtpsoHr_8quandary7message6writerNtB4_6Writer30write_compressed_unhinted_name.1:4,_RINvNvMNtNtCs8xvirJzNMvV_4core5slice5asciiSh27eq_ignore_ascii_case_chunks21eq_ignore_ascii_innerKj10_ECskjFBwtpsoHr_8quandary.0:3,_RNvMNtNtCs8xvirJzNMvV_4core5slice5asciiSh27eq_ignore_ascii_case_simpleCskjFBwtpsoHr_8quandary.0:3,_RINvMNtNtCs8xvirJzNMvV_4core5slice5asciiSh27eq_ignore_ascii_case_chunksKj10_ECskjFBwtpsoHr_8quandary.0:3,_RNvNtNtCskjFBwtpsoHr_8quandary4name4wire23parse_uncompressed_name.0:5,_RNvMs_NtCskjFBwtpsoHr_8quandary4nameNtB4_4Name15initialize_into.0:5,_RINvNtCs8xvirJzNMvV_4core3ptr9drop_glueSTjINtNtCs6xMQmN1AWUs_5alloc5boxed3BoxNtNtCskjFBwtpsoHr_8quandary4name4NameEEEB1h_.0:3,_RINvNtNtCskjFBwtpsoHr_8quandary6server5query11do_referralNtNtB2_10kani_query8MockZoneEB6_.0:2,_RINvNtNtCskjFBwtpsoHr_8quandary6server5query11do_referralNtNtB2_10kani_query8MockZoneEB6_.1:2,_RINvNtNtCskjFBwtpsoHr_8quandary6server5query11do_referralNtNtB2_10kani_query8MockZoneEB6_.2:2" stubs="M1,T0,N1"
 //   fn="Server::handle_non_axfr_query,answer,do_referral,add_additional_addresses,execute_allowing_truncation,Writer::add_authority_rrset,Writer::add_additional_rrset,Writer::with_rollback,Writer::clear_rrs,Writer::set_tc"
-//   bound="UDP; Referral(cut a., NS c.), c. a name of the parent zone with an A: NS record ends at 34, optional A at 50; dropped without TC when it does not fit, present when it does; every size limit 19..=30; unwind 7"
-//   sym="NS TTL, TTLs and octets of the address records per run"
-proof_ref!(c04_optional_udp_a, 7, {
-    at_limits!(|l| { trunc_optional(l); }; 19 20 21 22 23 24 25 26 27 28 29 30);
-    kani::cover!(true, "limits done");
-});
-
-// @harness name=c04_optional_udp_b props=C04,C05 panics=C04,C01 tier=thorough mem=4 t=2400 kani="--no-assertion-reach-checks" cbmc="--max-field-sensitivity-array-size 256 --unwindset _RNCNvMs_NtNtCskjFBwtpsoHr_8quandary7message6writerNtB6_6Writer30write_compressed_unhinted_name0Ba_.0:4,_RNCNvMs_NtNtCskjFBwtpsoHr_8quandary7message6writerNtB6_6Writer30write_compressed_unhinted_names_0Ba_.0:4,_RNvMs_NtNtCskjFBwtpsoHr_8quandary7message6writerNtB4_6Writer30write_compressed_unhinted_name.0:4,_RNvMs_NtNtCskjFBwtpsoHr_8quandary7message6writerNtB4_6Writer30write_compressed_unhinted_name.1:4,_RINvNvMNtNtCs8xvirJzNMvV_4core5slice5asciiSh27eq_ignore_ascii_case_chunks21eq_ignore_ascii_innerKj10_ECskjFBwtpsoHr_8quandary.0:3,_RNvMNtNtCs8xvirJzNMvV_4core5slice5asciiSh27eq_ignore_ascii_case_simpleCskjFBwtpsoHr_8quandary.0:3,_RINvMNtNtCs8xvirJzNMvV_4core5slice5asciiSh27eq_ignore_ascii_case_chunksKj10_ECskjFBwtpsoHr_8quandary.0:3,_RNvNtNtCskjFBwtpsoHr_8quandary4name4wire23parse_uncompressed_name.0:5,_RNvMs_NtCskjFBwtpsoHr_8quandary4nameNtB4_4Name15initialize_into.0:5,_RINvNtCs8xvirJzNMvV_4core3ptr9drop_glueSTjINtNtCs6xMQmN1AWUs_5alloc5boxed3BoxNtNtCskjFBwtpsoHr_8quandary4name4NameEEEB1h_.0:3,_RINvNtNtCskjFBwtpsoHr_8quandary6server5query11do_referralNtNtB2_10kani_query8MockZoneEB6_.0:2,_RINvNtNtCskjFBwtpsoHr_8quandary6server5query11do_referralNtNtB2_10kani_query8MockZoneEB6_.1:2,_RINvNtNtCskjFBwtpsoHr_8quandary6server5query11do_referralNtNtB2_10kani_query8MockZoneEB6_.2:2" stubs="M1,T0,N1"
-//   fn="Server::handle_non_axfr_query,answer,do_referral,add_additional_addresses,execute_allowing_truncation,Writer::add_authority_rrset,Writer::add_additional_rrset,Writer::with_rollback,Writer::clear_rrs,Writer::set_tc"
-//   bound="UDP; Referral(cut a., NS c.), c. a name of the parent zone with an A: NS record ends at 34, optional A at 50; dropped without TC when it does not fit, present when it does; every size limit 31..=42; unwind 7"
-//   sym="NS TTL, TTLs and octets of the address records per run"
-proof_ref!(c04_optional_udp_b, 7, {
-    at_limits!(|l| { trunc_optional(l); }; 31 32 33 34 35 36 37 38 39 40 41 42);
-    kani::cover!(true, "limits done");
-});
-
-// @harness name=c04_optional_udp_c props=C04,C05 panics=C04,C01 tier=thorough mem=4 t=2400 kani="--no-assertion-reach-checks" cbmc="--max-field-sensitivity-array-size 256 --unwindset _RNCNvMs_NtNtCskjFBwtpsoHr_8quandary7message6writerNtB6_6Writer30write_compressed_unhinted_name0Ba_.0:4,_RNCNvMs_NtNtCskjFBwtpsoHr_8quandary7message6writerNtB6_6Writer30write_compressed_unhinted_names_0Ba_.0:4,_RNvMs_NtNtCskjFBwtpsoHr_8quandary7message6writerNtB4_6Writer30write_compressed_unhinted_name.0:4,_RNvMs_NtNtCskjFBwtpsoHr_8quandary7message6writerNtB4_6Writer30write_compressed_unhinted_name.1:4,_RINvNvMNtNtCs8xvirJzNMvV_4core5slice5asciiSh27eq_ignore_ascii_case_chunks21eq_ignore_ascii_innerKj10_ECskjFBwtpsoHr_8quandary.0:3,_RNvMNtNtCs8xvirJzNMvV_4core5slice5asciiSh27eq_ignore_ascii_case_simpleCskjFBwtpsoHr_8quandary.0:3,_RINvMNtNtCs8xvirJzNMvV_4core5slice5asciiSh27eq_ignore_ascii_case_chunksKj10_ECskjFBwtpsoHr_8quandary.0:3,_RNvNtNtCskjFBwtpsoHr_8quandary4name4wire23parse_uncompressed_name.0:5,_RNvMs_NtCskjFBwtpsoHr_8quandary4nameNtB4_4Name15initialize_into.0:5,_RINvNtCs8xvirJzNMvV_4core3ptr9drop_glueSTjINtNtCs6xMQmN1AWUs_5alloc5boxed3BoxNtNtCskjFBwtpsoHr_8quandary4name4NameEEEB1h_.0:3,_RINvNtNtCskjFBwtpsoHr_8quandary6server5query11do_referralNtNtB2_10kani_query8MockZoneEB6_.0:2,_RINvNtNtCskjFBwtpsoHr_8quandary6server5query11do_referralNtNtB2_10kani_query8MockZoneEB6_.1:2,_RINvNtNtCskjFBwtpsoHr_8quandary6server5query11do_referralNtNtB2_10kani_query8MockZoneEB6_.2:2" stubs="M1,T0,N1"
-//   fn="Server::handle_non_axfr_query,answer,do_referral,add_additional_addresses,execute_allowing_truncation,Writer::add_authority_rrset,Writer::add_additional_rrset,Writer::with_rollback,Writer::clear_rrs,Writer::set_tc"
-//   bound="UDP; Referral(cut a., NS c.), c. a name of the parent zone with an A: NS record ends at 34, optional A at 50; dropped without TC when it does not fit, present when it does; every size limit 43..=54; unwind 7"
-//   sym="NS TTL, TTLs and octets of the address records per run"
-proof_ref!(c04_optional_udp_c, 7, {
-    at_limits!(|l| { trunc_optional(l); }; 43 44 45 46 47 48 50 51 52 53 54);
+//   bound="UDP; Referral(cut a., NS c.), c. a name of the parent zone with an A: NS record ends at 34, optional A at 50; dropped without TC when it does not fit, present when it does; size limits 33 34 35 49 50 64; unwind 7"
+//   sym="NS TTL, TTL and octets of the A record per run"
+proof_ref!(c04_optional_udp, 7, {
+    at_limits!(|l| { trunc_optional(l); }; 33 34 35 50 64);
     let (case, n) = trunc_optional(49);
     kani::cover!(case == PARTIAL && n == 34, "optional A dropped without TC");
-});
-
-// @harness name=c04_optional_udp_d props=C04,C05 panics=C04,C01 tier=thorough mem=4 t=2400 kani="--no-assertion-reach-checks" cbmc="--max-field-sensitivity-array-size 256 --unwindset _RNCNvMs_NtNtCskjFBwtpsoHr_8quandary7message6writerNtB6_6Writer30write_compressed_unhinted_name0Ba_.0:4,_RNCNvMs_NtNtCskjFBwtpsoHr_8quandary7message6writerNtB6_6Writer30write_compressed_unhinted_names_0Ba_.0:4,_RNvMs_NtNtCskjFBwtpsoHr_8quandary7message6writerNtB4_6Writer30write_compressed_unhinted_name.0:4,_RNvMs_NtNtCskjFBwtpsoHr_8quandary7message6writerNtB4_6Writer30write_compressed_unhinted_name.1:4,_RINvNvMNtNtCs8xvirJzNMvV_4core5slice5asciiSh27eq_ignore_ascii_case_chunks21eq_ignore_ascii_innerKj10_ECskjFBwtpsoHr_8quandary.0:3,_RNvMNtNtCs8xvirJzNMvV_4core5slice5asciiSh27eq_ignore_ascii_case_simpleCskjFBwtpsoHr_8quandary.0:3,_RINvMNtNtCs8xvirJzNMvV_4core5slice5asciiSh27eq_ignore_ascii_case_chunksKj10_ECskjFBwtpsoHr_8quandary.0:3,_RNvNtNtCskjFBwtpsoHr_8quandary4name4wire23parse_uncompressed_name.0:5,_RNvMs_NtCskjFBwtpsoHr_8quandary4nameNtB4_4Name15initialize_into.0:5,_RINvNtCs8xvirJzNMvV_4core3ptr9drop_glueSTjINtNtCs6xMQmN1AWUs_5alloc5boxed3BoxNtNtCskjFBwtpsoHr_8quandary4name4NameEEEB1h_.0:3,_RINvNtNtCskjFBwtpsoHr_8quandary6server5query11do_referralNtNtB2_10kani_query8MockZoneEB6_.0:2,_RINvNtNtCskjFBwtpsoHr_8quandary6server5query11do_referralNtNtB2_10kani_query8MockZoneEB6_.1:2,_RINvNtNtCskjFBwtpsoHr_8quandary6server5query11do_referralNtNtB2_10kani_query8MockZoneEB6_.2:2" stubs="M1,T0,N1"
-//   fn="Server::handle_non_axfr_query,answer,do_referral,add_additional_addresses,execute_allowing_truncation,Writer::add_authority_rrset,Writer::add_additional_rrset,Writer::with_rollback,Writer::clear_rrs,Writer::set_tc"
-//   bound="UDP; Referral(cut a., NS c.), c. a name of the parent zone with an A: NS record ends at 34, optional A at 50; dropped without TC when it does not fit, present when it does; every size limit 55..=64; unwind 7"
-//   sym="NS TTL, TTLs and octets of the address records per run"
-proof_ref!(c04_optional_udp_d, 7, {
-    at_limits!(|l| { trunc_optional(l); }; 55 56 57 58 59 60 61 62 63 64);
-    kani::cover!(true, "limits done");
 });
 
 /// Found(MX b.), b. with an A: the MX record ends at 36, the (optional) A at 52.
@@ -2430,41 +2366,14 @@ fn trunc_mx(limit: usize) -> (u8, usize) {
     (case, n)
 }
 
-// @harness name=c04_mx_udp_a props=C04,C05 panics=C04,C01 tier=thorough mem=4 t=2400 kani="--no-assertion-reach-checks" cbmc="--max-field-sensitivity-array-size 256 --unwindset _RNCNvMs_NtNtCskjFBwtpsoHr_8quandary7message6writerNtB6_6Writer30write_compressed_unhinted_name0Ba_.0:4,_RNCNvMs_NtNtCskjFBwtpsoHr_8quandary7message6writerNtB6_6Writer30write_compressed_unhinted_names_0Ba_.0:4,_RNvMs_NtNtCskjFBwtpsoHr_8quandary7message6writerNtB4_6Writer30write_compressed_unhinted_name.0:4,_RNvMs_NtNtCskjFBwtpsoHr_8quandary7message6writerNtB4_6Writer30write_compressed_unhinted_name.1:4,_RINvNvMNtNtCs8xvirJzNMvV_4core5slice5asciiSh27eq_ignore_ascii_case_chunks21eq_ignore_ascii_innerKj10_ECskjFBwtpsoHr_8quandary.0:3,_RNvMNtNtCs8xvirJzNMvV_4core5slice5asciiSh27eq_ignore_ascii_case_simpleCskjFBwtpsoHr_8quandary.0:3,_RINvMNtNtCs8xvirJzNMvV_4core5slice5asciiSh27eq_ignore_ascii_case_chunksKj10_ECskjFBwtpsoHr_8quandary.0:3,_RNvNtNtCskjFBwtpsoHr_8quandary4name4wire23parse_uncompressed_name.0:5,_RNvMs_NtCskjFBwtpsoHr_8quandary4nameNtB4_4Name15initialize_into.0:5,_RINvNtCs8xvirJzNMvV_4core3ptr9drop_glueSTjINtNtCs6xMQmN1AWUs_5alloc5boxed3BoxNtNtCskjFBwtpsoHr_8quandary4name4NameEEEB1h_.0:3,_RINvNtNtCskjFBwtpsoHr_8quandary6server5query11do_referralNtNtB2_10kani_query8MockZoneEB6_.0:2,_RINvNtNtCskjFBwtpsoHr_8quandary6server5query11do_referralNtNtB2_10kani_query8MockZoneEB6_.1:2,_RINvNtNtCskjFBwtpsoHr_8quandary6server5query11do_referralNtNtB2_10kani_query8MockZoneEB6_.2:2" stubs="M1,T0"
+// @harness name=c04_mx_udp props=C04,C05 panics=C04,C01 tier=thorough mem=6 t=3600 kani="--no-assertion-reach-checks" cbmc="--max-field-sensitivity-array-size 256 --unwindset _RNCNvMs_NtNtCskjFBwtpsoHr_8quandary7message6writerNtB6_6Writer30write_compressed_unhinted_name0Ba_.0:4,_RNCNvMs_NtNtCskjFBwtpsoHr_8quandary7message6writerNtB6_6Writer30write_compressed_unhinted_names_0Ba_.0:4,_RNvMs_NtNtCskjFBwtpsoHr_8quandary7message6writerNtB4_6Writer30write_compressed_unhinted_name.0:4,_RNvMs_NtNtCskjFBwtpsoHr_8quandary7message6writerNtB4_6Writer30write_compressed_unhinted_name.1:4,_RINvNvMNtNtCs8xvirJzNMvV_4core5slice5asciiSh27eq_ignore_ascii_case_chunks21eq_ignore_ascii_innerKj10_ECskjFBwtpsoHr_8quandary.0:3,_RNvMNtNtCs8xvirJzNMvV_4core5slice5asciiSh27eq_ignore_ascii_case_simpleCskjFBwtpsoHr_8quandary.0:3,_RINvMNtNtCs8xvirJzNMvV_4core5slice5asciiSh27eq_ignore_ascii_case_chunksKj10_ECskjFBwtpsoHr_8quandary.0:3,_RNvNtNtCskjFBwtpsoHr_8quandary4name4wire23parse_uncompressed_name.0:5,_RNvMs_NtCskjFBwtpsoHr_8quandary4nameNtB4_4Name15initialize_into.0:5,_RINvNtCs8xvirJzNMvV_4core3ptr9drop_glueSTjINtNtCs6xMQmN1AWUs_5alloc5boxed3BoxNtNtCskjFBwtpsoHr_8quandary4name4NameEEEB1h_.0:3,_RINvNtNtCskjFBwtpsoHr_8quandary6server5query11do_referralNtNtB2_10kani_query8MockZoneEB6_.0:2,_RINvNtNtCskjFBwtpsoHr_8quandary6server5query11do_referralNtNtB2_10kani_query8MockZoneEB6_.1:2,_RINvNtNtCskjFBwtpsoHr_8quandary6server5query11do_referralNtNtB2_10kani_query8MockZoneEB6_.2:2" stubs="M1,T0"
 //   fn="Server::handle_non_axfr_query,answer,do_additional_section_processing,add_additional_addresses,execute_allowing_truncation,Writer::with_rollback,Writer::clear_rrs,Writer::set_tc"
-//   bound="UDP; question a. MX IN; Found(MX b.), b. with an A: MX record ends at 36, optional A at 52; every size limit 19..=30; unwind 7"
+//   bound="UDP; question a. MX IN; Found(MX b.), b. with an A: MX record ends at 36, optional A at 52; size limits 35 36 37 51 52 64; unwind 7"
 //   sym="ttl, pref, TTL and octets of the A record per run"
-proof!(c04_mx_udp_a, 7, {
-    at_limits!(|l| { trunc_mx(l); }; 19 20 21 22 23 24 25 26 27 28 29 30);
-    kani::cover!(true, "limits done");
-});
-
-// @harness name=c04_mx_udp_b props=C04,C05 panics=C04,C01 tier=thorough mem=4 t=2400 kani="--no-assertion-reach-checks" cbmc="--max-field-sensitivity-array-size 256 --unwindset _RNCNvMs_NtNtCskjFBwtpsoHr_8quandary7message6writerNtB6_6Writer30write_compressed_unhinted_name0Ba_.0:4,_RNCNvMs_NtNtCskjFBwtpsoHr_8quandary7message6writerNtB6_6Writer30write_compressed_unhinted_names_0Ba_.0:4,_RNvMs_NtNtCskjFBwtpsoHr_8quandary7message6writerNtB4_6Writer30write_compressed_unhinted_name.0:4,_RNvMs_NtNtCskjFBwtpsoHr_8quandary7message6writerNtB4_6Writer30write_compressed_unhinted_name.1:4,_RINvNvMNtNtCs8xvirJzNMvV_4core5slice5asciiSh27eq_ignore_ascii_case_chunks21eq_ignore_ascii_innerKj10_ECskjFBwtpsoHr_8quandary.0:3,_RNvMNtNtCs8xvirJzNMvV_4core5slice5asciiSh27eq_ignore_ascii_case_simpleCskjFBwtpsoHr_8quandary.0:3,_RINvMNtNtCs8xvirJzNMvV_4core5slice5asciiSh27eq_ignore_ascii_case_chunksKj10_ECskjFBwtpsoHr_8quandary.0:3,_RNvNtNtCskjFBwtpsoHr_8quandary4name4wire23parse_uncompressed_name.0:5,_RNvMs_NtCskjFBwtpsoHr_8quandary4nameNtB4_4Name15initialize_into.0:5,_RINvNtCs8xvirJzNMvV_4core3ptr9drop_glueSTjINtNtCs6xMQmN1AWUs_5alloc5boxed3BoxNtNtCskjFBwtpsoHr_8quandary4name4NameEEEB1h_.0:3,_RINvNtNtCskjFBwtpsoHr_8quandary6server5query11do_referralNtNtB2_10kani_query8MockZoneEB6_.0:2,_RINvNtNtCskjFBwtpsoHr_8quandary6server5query11do_referralNtNtB2_10kani_query8MockZoneEB6_.1:2,_RINvNtNtCskjFBwtpsoHr_8quandary6server5query11do_referralNtNtB2_10kani_query8MockZoneEB6_.2:2" stubs="M1,T0"
-//   fn="Server::handle_non_axfr_query,answer,do_additional_section_processing,add_additional_addresses,execute_allowing_truncation,Writer::with_rollback,Writer::clear_rrs,Writer::set_tc"
-//   bound="UDP; question a. MX IN; Found(MX b.), b. with an A: MX record ends at 36, optional A at 52; every size limit 31..=42; unwind 7"
-//   sym="ttl, pref, TTL and octets of the A record per run"
-proof!(c04_mx_udp_b, 7, {
-    at_limits!(|l| { trunc_mx(l); }; 31 32 33 34 35 36 37 38 39 40 41 42);
-    kani::cover!(true, "limits done");
-});
-
-// @harness name=c04_mx_udp_c props=C04,C05 panics=C04,C01 tier=thorough mem=4 t=2400 kani="--no-assertion-reach-checks" cbmc="--max-field-sensitivity-array-size 256 --unwindset _RNCNvMs_NtNtCskjFBwtpsoHr_8quandary7message6writerNtB6_6Writer30write_compressed_unhinted_name0Ba_.0:4,_RNCNvMs_NtNtCskjFBwtpsoHr_8quandary7message6writerNtB6_6Writer30write_compressed_unhinted_names_0Ba_.0:4,_RNvMs_NtNtCskjFBwtpsoHr_8quandary7message6writerNtB4_6Writer30write_compressed_unhinted_name.0:4,_RNvMs_NtNtCskjFBwtpsoHr_8quandary7message6writerNtB4_6Writer30write_compressed_unhinted_name.1:4,_RINvNvMNtNtCs8xvirJzNMvV_4core5slice5asciiSh27eq_ignore_ascii_case_chunks21eq_ignore_ascii_innerKj10_ECskjFBwtpsoHr_8quandary.0:3,_RNvMNtNtCs8xvirJzNMvV_4core5slice5asciiSh27eq_ignore_ascii_case_simpleCskjFBwtpsoHr_8quandary.0:3,_RINvMNtNtCs8xvirJzNMvV_4core5slice5asciiSh27eq_ignore_ascii_case_chunksKj10_ECskjFBwtpsoHr_8quandary.0:3,_RNvNtNtCskjFBwtpsoHr_8quandary4name4wire23parse_uncompressed_name.0:5,_RNvMs_NtCskjFBwtpsoHr_8quandary4nameNtB4_4Name15initialize_into.0:5,_RINvNtCs8xvirJzNMvV_4core3ptr9drop_glueSTjINtNtCs6xMQmN1AWUs_5alloc5boxed3BoxNtNtCskjFBwtpsoHr_8quandary4name4NameEEEB1h_.0:3,_RINvNtNtCskjFBwtpsoHr_8quandary6server5query11do_referralNtNtB2_10kani_query8MockZoneEB6_.0:2,_RINvNtNtCskjFBwtpsoHr_8quandary6server5query11do_referralNtNtB2_10kani_query8MockZoneEB6_.1:2,_RINvNtNtCskjFBwtpsoHr_8quandary6server5query11do_referralNtNtB2_10kani_query8MockZoneEB6_.2:2" stubs="M1,T0"
-//   fn="Server::handle_non_axfr_query,answer,do_additional_section_processing,add_additional_addresses,execute_allowing_truncation,Writer::with_rollback,Writer::clear_rrs,Writer::set_tc"
-//   bound="UDP; question a. MX IN; Found(MX b.), b. with an A: MX record ends at 36, optional A at 52; every size limit 43..=54; unwind 7"
-//   sym="ttl, pref, TTL and octets of the A record per run"
-proof!(c04_mx_udp_c, 7, {
-    at_limits!(|l| { trunc_mx(l); }; 43 44 45 46 47 48 49 50 52 53 54);
+proof!(c04_mx_udp, 7, {
+    at_limits!(|l| { trunc_mx(l); }; 35 36 37 52 64);
     let (case, n) = trunc_mx(51);
     kani::cover!(case == PARTIAL && n == 36, "address of the exchange dropped without TC");
-});
-
-// @harness name=c04_mx_udp_d props=C04,C05 panics=C04,C01 tier=thorough mem=4 t=2400 kani="--no-assertion-reach-checks" cbmc="--max-field-sensitivity-array-size 256 --unwindset _RNCNvMs_NtNtCskjFBwtpsoHr_8quandary7message6writerNtB6_6Writer30write_compressed_unhinted_name0Ba_.0:4,_RNCNvMs_NtNtCskjFBwtpsoHr_8quandary7message6writerNtB6_6Writer30write_compressed_unhinted_names_0Ba_.0:4,_RNvMs_NtNtCskjFBwtpsoHr_8quandary7message6writerNtB4_6Writer30write_compressed_unhinted_name.0:4,_RNvMs_NtNtCskjFBwtpsoHr_8quandary7message6writerNtB4_6Writer30write_compressed_unhinted_name.1:4,_RINvNvMNtNtCs8xvirJzNMvV_4core5slice5asciiSh27eq_ignore_ascii_case_chunks21eq_ignore_ascii_innerKj10_ECskjFBwtpsoHr_8quandary.0:3,_RNvMNtNtCs8xvirJzNMvV_4core5slice5asciiSh27eq_ignore_ascii_case_simpleCskjFBwtpsoHr_8quandary.0:3,_RINvMNtNtCs8xvirJzNMvV_4core5slice5asciiSh27eq_ignore_ascii_case_chunksKj10_ECskjFBwtpsoHr_8quandary.0:3,_RNvNtNtCskjFBwtpsoHr_8quandary4name4wire23parse_uncompressed_name.0:5,_RNvMs_NtCskjFBwtpsoHr_8quandary4nameNtB4_4Name15initialize_into.0:5,_RINvNtCs8xvirJzNMvV_4core3ptr9drop_glueSTjINtNtCs6xMQmN1AWUs_5alloc5boxed3BoxNtNtCskjFBwtpsoHr_8quandary4name4NameEEEB1h_.0:3,_RINvNtNtCskjFBwtpsoHr_8quandary6server5query11do_referralNtNtB2_10kani_query8MockZoneEB6_.0:2,_RINvNtNtCskjFBwtpsoHr_8quandary6server5query11do_referralNtNtB2_10kani_query8MockZoneEB6_.1:2,_RINvNtNtCskjFBwtpsoHr_8quandary6server5query11do_referralNtNtB2_10kani_query8MockZoneEB6_.2:2" stubs="M1,T0"
-//   fn="Server::handle_non_axfr_query,answer,do_additional_section_processing,add_additional_addresses,execute_allowing_truncation,Writer::with_rollback,Writer::clear_rrs,Writer::set_tc"
-//   bound="UDP; question a. MX IN; Found(MX b.), b. with an A: MX record ends at 36, optional A at 52; every size limit 55..=64; unwind 7"
-//   sym="ttl, pref, TTL and octets of the A record per run"
-proof!(c04_mx_udp_d, 7, {
-    at_limits!(|l| { trunc_mx(l); }; 55 56 57 58 59 60 61 62 63 64);
-    kani::cover!(true, "limits done");
 });
 
 // @harness name=c04_2ns_udp props=C04,C05 panics=C04,C01 tier=thorough mem=4 t=2400 kani="--no-assertion-reach-checks" cbmc="--max-field-sensitivity-array-size 256 --unwindset _RNCNvMs_NtNtCskjFBwtpsoHr_8quandary7message6writerNtB6_6Writer30write_compressed_unhinted_name0Ba_.0:4,_RNCNvMs_NtNtCskjFBwtpsoHr_8quandary7message6writerNtB6_6Writer30write_compressed_unhinted_names_0Ba_.0:4,_RNvMs_NtNtCskjFBwtpsoHr_8quandary7message6writerNtB4_6Writer30write_compressed_unhinted_name.0:4,_RNvMs_NtNtCskjFBwtpsoHr_8quandary7message6writerNtB4_6Writer30write_compressed_unhinted_name.1:4,_RINvNvMNtNtCs8xvirJzNMvV_4core5slice5asciiSh27eq_ignore_ascii_case_chunks21eq_ignore_ascii_innerKj10_ECskjFBwtpsoHr_8quandary.0:3,_RNvMNtNtCs8xvirJzNMvV_4core5slice5asciiSh27eq_ignore_ascii_case_simpleCskjFBwtpsoHr_8quandary.0:3,_RINvMNtNtCs8xvirJzNMvV_4core5slice5asciiSh27eq_ignore_ascii_case_chunksKj10_ECskjFBwtpsoHr_8quandary.0:3,_RNvNtNtCskjFBwtpsoHr_8quandary4name4wire23parse_uncompressed_name.0:5,_RNvMs_NtCskjFBwtpsoHr_8quandary4nameNtB4_4Name15initialize_into.0:5,_RINvNtCs8xvirJzNMvV_4core3ptr9drop_glueSTjINtNtCs6xMQmN1AWUs_5alloc5boxed3BoxNtNtCskjFBwtpsoHr_8quandary4name4NameEEEB1h_.0:3,_RINvNtNtCskjFBwtpsoHr_8quandary6server5query11do_referralNtNtB2_10kani_query8MockZoneEB6_.0:3,_RINvNtNtCskjFBwtpsoHr_8quandary6server5query11do_referralNtNtB2_10kani_query8MockZoneEB6_.1:2,_RINvNtNtCskjFBwtpsoHr_8quandary6server5query11do_referralNtNtB2_10kani_query8MockZoneEB6_.2:2" stubs="M1,T0,N1"
